@@ -1,6 +1,6 @@
 use crate::Point;
 use parry2d::{
-    bounding_volume::Aabb, math::Isometry, query::PointQuery, shape::Triangle,
+    bounding_volume::Aabb, math::Isometry, query::PointQuery,
 };
 use std::cmp::Ordering;
 
@@ -78,8 +78,11 @@ pub fn clip_line(
 /// the threshold are of 0.01 is used since
 /// lines may not be very aligned.
 pub fn is_collinear(a: &Point, b: &Point, c: &Point) -> bool {
-    use std::ops::Deref;
-    Triangle::new(*a.deref(), *b.deref(), *c.deref()).area() < 0.01
+    // the area comes from the cross product: computing it from the side
+    // lengths loses so much precision on long thin triangles that long
+    // diagonal lines were no longer recognized as collinear
+    let cross = (b.x - a.x) * (c.y - a.y) - (b.y - a.y) * (c.x - a.x);
+    (cross / 2.0).abs() < 0.01
 }
 
 pub fn pad(v: f32) -> f32 {
